@@ -68,25 +68,58 @@ type c08Case struct {
 	// BPOp: the embedder's debugger edits the breakpoints from inside the device callback at access BPAt:
 	// 1 installs the map (the field was nil when Run was entered); 2 sets the field to nil; 3 adds the
 	// addresses to the (initially empty, non-nil) map
-	BPOp int    `json:"breakpoint_edit,omitempty"`
-	BPAt int    `json:"breakpoint_edit_at_access,omitempty"`
-	Salt uint32 `json:"salt"`
+	BPOp int `json:"breakpoint_edit,omitempty"`
+	BPAt int `json:"breakpoint_edit_at_access,omitempty"`
+	// Kind/Kind2 (if non-zero) override NMI/NMI2: 1 NMI, 2 IM1, 3 mode-0 request whose instruction is HALT,
+	// 4 mode-0 RST 38, 5 mode-0 INC A. Kinds 3..5 run the CPU in interrupt mode 0.
+	Kind  int `json:"request_kind,omitempty"`
+	Kind2 int `json:"request2_kind,omitempty"`
+	// Pre: a request of this kind is already pending when the first Run is entered
+	Pre int `json:"pending_on_entry_kind,omitempty"`
+	// Swaps: between two Run calls the embedder edits the breakpoint map in place
+	Swaps []c08Swap `json:"breakpoint_swaps,omitempty"`
+	Salt  uint32    `json:"salt"`
 }
 
 type c08Key struct{}
 
+// c08Swap: after Run number AfterRun (1-based) the address Del is deleted from the map and Add inserted
+// (the map object and its size stay the same); Fresh: the map is replaced by a new object with the same
+// contents instead.
+type c08Swap struct {
+	AfterRun int    `json:"after_run"`
+	Del      uint16 `json:"delete"`
+	Add      uint16 `json:"add"`
+	Fresh    bool   `json:"new_map_object,omitempty"`
+}
+
+func c08Req(kind int) *z80.Interrupt {
+	switch kind {
+	case 1:
+		return z80.NMIInterrupt()
+	case 3:
+		return z80.IM0Interrupt(0x76)
+	case 4:
+		return z80.IM0Interrupt(0xFF)
+	case 5:
+		return z80.IM0Interrupt(0x3C)
+	}
+	return z80.IM1Interrupt()
+}
+
 type c08Side struct {
-	cpu  z80.CPU
-	mem  *obs.Mem
-	io   *obs.IO
-	n    int
-	j    int
-	nmi  bool
-	j2   int
-	nmi2 bool
-	bpOp int
-	bpAt int
-	bps  []uint16
+	cpu         z80.CPU
+	mem         *obs.Mem
+	io          *obs.IO
+	n           int
+	j           int
+	nmi         bool
+	j2          int
+	nmi2        bool
+	kind, kind2 int
+	bpOp        int
+	bpAt        int
+	bps         []uint16
 	// edited: the callback has performed the breakpoint edit
 	edited bool
 }
@@ -97,18 +130,10 @@ func newC08Side(bg *[65536]uint8) *c08Side {
 	s.cpu.IO = s.io
 	hook := func() {
 		if s.n == s.j {
-			if s.nmi {
-				s.cpu.Interrupt = z80.NMIInterrupt()
-			} else {
-				s.cpu.Interrupt = z80.IM1Interrupt()
-			}
+			s.cpu.Interrupt = c08Req(s.kind)
 		}
 		if s.j2 > 0 && s.n == s.j2 {
-			if s.nmi2 {
-				s.cpu.Interrupt = z80.NMIInterrupt()
-			} else {
-				s.cpu.Interrupt = z80.IM1Interrupt()
-			}
+			s.cpu.Interrupt = c08Req(s.kind2)
 		}
 		if s.bpOp != 0 && s.n == s.bpAt && !s.edited {
 			s.edited = true
@@ -145,6 +170,9 @@ func (s *c08Side) load(p *c08Prog, cs *c08Case) {
 	base := baseVector(0)
 	st := base.S
 	st.PC, st.SP, st.IM = p.pc, 0xF000, 1
+	if cs.Kind >= 3 || cs.Kind2 >= 3 || cs.Pre >= 3 {
+		st.IM = 0
+	}
 	st.IFF1, st.IFF2 = p.iff, p.iff
 	st.Halt = cs.Stale
 	toCPU(&st, &s.cpu)
@@ -159,6 +187,22 @@ func (s *c08Side) load(p *c08Prog, cs *c08Case) {
 		}
 	}
 	s.n, s.j, s.nmi, s.j2, s.nmi2 = 0, cs.J, cs.NMI, cs.J2, cs.NMI2
+	s.kind, s.kind2 = cs.Kind, cs.Kind2
+	if s.kind == 0 {
+		s.kind = 2
+		if cs.NMI {
+			s.kind = 1
+		}
+	}
+	if s.kind2 == 0 {
+		s.kind2 = 2
+		if cs.NMI2 {
+			s.kind2 = 1
+		}
+	}
+	if cs.Pre > 0 {
+		s.cpu.Interrupt = c08Req(cs.Pre)
+	}
 	s.bpOp, s.bpAt, s.bps, s.edited = cs.BPOp, cs.BPAt, cs.BPs, false
 }
 
@@ -205,7 +249,31 @@ func twinRun(cpu *z80.CPU, maxSteps int) (err error, steps int, ok bool) {
 func c08One(a, b *c08Side, p *c08Prog, cs *c08Case) (d []string, totalSteps int) {
 	a.load(p, cs)
 	b.load(p, cs)
+	cur := append([]uint16{}, cs.BPs...)
 	for run := 0; run < cs.Runs; run++ {
+		for _, sw := range cs.Swaps {
+			if sw.AfterRun == run && run > 0 {
+				for _, side := range []*c08Side{a, b} {
+					if sw.Fresh {
+						m := map[uint16]struct{}{}
+						for k := range side.cpu.BreakPoints {
+							m[k] = struct{}{}
+						}
+						side.cpu.BreakPoints = m
+					} else {
+						delete(side.cpu.BreakPoints, sw.Del)
+						side.cpu.BreakPoints[sw.Add] = struct{}{}
+					}
+				}
+				if !sw.Fresh {
+					for i, x := range cur {
+						if x == sw.Del {
+							cur[i] = sw.Add
+						}
+					}
+				}
+			}
+		}
 		a.mem.ClearLog()
 		b.mem.ClearLog()
 		a.mem.Limit, b.mem.Limit = 100000, 100000
@@ -221,6 +289,11 @@ func c08One(a, b *c08Side, p *c08Prog, cs *c08Case) (d []string, totalSteps int)
 			return []string{fmt.Sprintf("Step-driven twin panicked in Run #%d: %v", run+1, panT)}, totalSteps
 		}
 		if !fin {
+			if cs.Kind >= 3 || cs.Kind2 >= 3 || cs.Pre >= 3 {
+				// a mode-0 request resumes the program 1 byte late (C07's known finding), which can derail it for
+				// good: nothing obliges Run to return then, the case is not judged
+				return nil, totalSteps
+			}
 			return []string{"framework error: catalogue program does not terminate"}, totalSteps
 		}
 		totalSteps += steps
@@ -263,7 +336,11 @@ func c08One(a, b *c08Side, p *c08Prog, cs *c08Case) (d []string, totalSteps int)
 			d = append(d, fmt.Sprintf("memory[%04X] differs after Run #%d", addr, run+1))
 		}
 		// the breakpoint set belongs to the embedder: Run must not change it
-		if wantNil, want := a.wantBPs(cs); !wantNil {
+		wantNil, want := a.wantBPs(cs)
+		if len(cs.Swaps) > 0 {
+			want = cur
+		}
+		if !wantNil {
 			if a.cpu.BreakPoints == nil || len(a.cpu.BreakPoints) != len(want) {
 				d = append(d, fmt.Sprintf("Run #%d changed the BreakPoints map (now %d entries, the embedder put %d)", run+1, len(a.cpu.BreakPoints), len(want)))
 			} else {
@@ -277,7 +354,8 @@ func c08One(a, b *c08Side, p *c08Prog, cs *c08Case) (d []string, totalSteps int)
 			d = append(d, fmt.Sprintf("Run #%d replaced the nil BreakPoints map", run+1))
 		}
 		// properties of the stop itself
-		if errR == nil && len(d) == 0 {
+		if errR == nil && len(d) == 0 && cs.Kind != 3 && cs.Kind2 != 3 && cs.Pre != 3 {
+			// (a HALT supplied by a device as mode-0 instruction leaves PC on whatever the program holds there)
 			if !a.cpu.HALT || a.mem.Peek(a.cpu.PC) != 0x76 {
 				d = append(d, fmt.Sprintf("Run #%d returned nil but HALT=%v and PC=%04X does not address a HALT opcode", run+1, a.cpu.HALT, a.cpu.PC))
 			}
@@ -320,6 +398,22 @@ func checkC08(c *Ctx) {
 			cases = append(cases, cs)
 		}
 	}
+	// between two Runs the embedder edits the breakpoint map in place: one address swapped for another (the
+	// map object and its size stay the same), or the map replaced by a new object with the same contents
+	for pi, p := range progs {
+		for _, del := range p.bps {
+			for _, add := range p.bps {
+				if del == add {
+					continue
+				}
+				for after := 1; after <= 2; after++ {
+					cases = append(cases, c08Case{Prog: pi, BPs: []uint16{del}, Runs: 4, J: -1, Swaps: []c08Swap{{AfterRun: after, Del: del, Add: add}}, Salt: c.Salt})
+					cases = append(cases, c08Case{Prog: pi, BPs: []uint16{del, 0x4444}, Runs: 4, J: -1, Swaps: []c08Swap{{AfterRun: after, Del: del, Add: add}, {AfterRun: after + 1, Del: add, Add: del}}, Salt: c.Salt})
+				}
+			}
+			cases = append(cases, c08Case{Prog: pi, BPs: []uint16{del}, Runs: 4, J: -1, Swaps: []c08Swap{{AfterRun: 1, Fresh: true}, {AfterRun: 2, Del: del, Add: p.bps[0] + 1}}, Salt: c.Salt})
+		}
+	}
 	nEdit := 0
 	for pi, p := range progs {
 		// the debugger edits the breakpoints from inside a device callback, at every access index
@@ -332,7 +426,7 @@ func checkC08(c *Ctx) {
 			}
 		}
 	}
-	c.Rule = fmt.Sprintf("%d terminating programs (straight line; HALT first; multi-byte instruction with a breakpoint inside; code wrapping FFFF->0000 into a HALT; DJNZ loop with a breakpoint on its head; LDIR with a breakpoint on itself; CALL/RET; EI + IN/OUT with handlers; DI;HALT; prefix-only tail; JP; HALT at FFFF; HALT at 0000; HALT;HALT) x all subsets of each program's 2..5 candidate breakpoint addresses + nil map + stale halted indication (%d configurations) x history Run;Run;Run;Run x {no request, NMI or IM1 raised from inside the memory/port callback at every access index j of the history}. Contexts: Background, a WithCancel context nobody cancels, a WithValue child. Breakpoint edits from inside a device callback at every access index 0..39 (install the map when the field was nil on entry; set the field to nil; add addresses to an empty map) x 3 address sets. Oracle: Step-driven twin with the stop rule applied outside. Non-trivial = histories with at least one breakpoint hit or callback-raised request (counted).", len(progs), len(cases))
+	c.Rule = fmt.Sprintf("%d terminating programs (straight line; HALT first; multi-byte instruction with a breakpoint inside; code wrapping FFFF->0000 into a HALT; DJNZ loop with a breakpoint on its head; LDIR with a breakpoint on itself; CALL/RET; EI + IN/OUT with handlers; DI;HALT; prefix-only tail; JP; HALT at FFFF; HALT at 0000; HALT;HALT) x all subsets of each program's 2..5 candidate breakpoint addresses + nil map + stale halted indication (%d configurations) x history Run;Run;Run;Run x {no request; NMI, IM1, a mode-0 request whose instruction is HALT, mode-0 RST 38, mode-0 INC A raised from inside the memory/port callback at every access index j of the history, or already pending when the first Run is entered}; breakpoint maps edited in place between two Runs (one address swapped for another, the map object and its size unchanged; the map replaced by an equal new object). Contexts: Background, a WithCancel context nobody cancels, a WithValue child. Breakpoint edits from inside a device callback at every access index 0..39 (install the map when the field was nil on entry; set the field to nil; add addresses to an empty map) x 3 address sets. Oracle: Step-driven twin with the stop rule applied outside. Non-trivial = histories with at least one breakpoint hit or callback-raised request (counted).", len(progs), len(cases))
 	c.Bound = "4 Run calls; <=1 callback-raised request at every access index (thorough: <=2, every pair of indices)"
 	bg := obsBackground(c)
 	type sidePair struct{ a, b *c08Side }
@@ -355,16 +449,16 @@ func checkC08(c *Ctx) {
 			if len(cs.BPs) > 0 {
 				nt++
 			}
-			if cs.BPOp != 0 || cs.Ctx == 2 {
+			if cs.BPOp != 0 || cs.Ctx == 2 || len(cs.Swaps) > 0 {
 				if d != nil {
 					cs.Name = p.name
-					c.Report(fmt.Sprintf("c08/run:%s", p.name), ci*1000, "", cs, cloneStrings(append([]string{fmt.Sprintf("program %q, breakpoints %04X, context kind %d, breakpoint edit %d at access %d", p.name, cs.BPs, cs.Ctx, cs.BPOp, cs.BPAt)}, d...)))
+					c.Report(fmt.Sprintf("c08/run:%s", p.name), ci*1000, "", cs, cloneStrings(append([]string{fmt.Sprintf("program %q, breakpoints %04X, context kind %d, breakpoint edit %d at access %d, edits between Runs %+v", p.name, cs.BPs, cs.Ctx, cs.BPOp, cs.BPAt, cs.Swaps)}, d...)))
 				}
 				continue // no request sweep for these
 			}
 			report := func(d []string) {
 				cs.Name = p.name
-				c.Report(fmt.Sprintf("c08/run:%s", p.name), ci*1000+int64(cs.J+1), "", cs, cloneStrings(append([]string{fmt.Sprintf("program %q, breakpoints %04X (nil map: %v), request at access %d (NMI: %v)", p.name, cs.BPs, cs.NilMap, cs.J, cs.NMI)}, d...)))
+				c.Report(fmt.Sprintf("c08/run:%s", p.name), ci*1000+int64(cs.J+1), "", cs, cloneStrings(append([]string{fmt.Sprintf("program %q, breakpoints %04X (nil map: %v), request of kind %d at access %d (kinds: 1 NMI, 2 IM1, 3 mode-0 HALT, 4 mode-0 RST 38, 5 mode-0 INC A), pending on entry: kind %d, context kind %d", p.name, cs.BPs, cs.NilMap, cs.Kind, cs.J, cs.Pre, cs.Ctx)}, d...)))
 			}
 			if d != nil {
 				report(d)
@@ -373,8 +467,8 @@ func checkC08(c *Ctx) {
 			// deviation bound 1: a request raised inside the callback at access j
 			total := sp.b.n
 			for j := 0; j < total+2; j++ {
-				for _, nmi := range []bool{true, false} {
-					cs.J, cs.NMI = j, nmi
+				for kind := 1; kind <= 5; kind++ {
+					cs.J, cs.Kind, cs.NMI = j, kind, kind == 1
 					d, n := c08One(sp.a, sp.b, p, &cs)
 					ev++
 					nt++
@@ -385,6 +479,20 @@ func checkC08(c *Ctx) {
 					}
 				}
 			}
+			cs.Kind = 0
+			// a request already pending when the first Run is entered
+			for kind := 1; kind <= 5; kind++ {
+				cs.J, cs.Pre = -1, kind
+				d, n := c08One(sp.a, sp.b, p, &cs)
+				ev++
+				nt++
+				st += int64(n)
+				if d != nil {
+					report(d)
+					return
+				}
+			}
+			cs.Pre = 0
 			if !c.Quick() {
 				// deviation bound 2: two callback-raised requests at every pair of access indices
 				for j := 0; j < total+2; j++ {
